@@ -45,6 +45,8 @@ def grids(tier):
         ({"z": 2, "a": 2}, ("z",)),
         ({"d": 3}, ()),                      # tiny distinct floats
         ({"e": 3, "d": 2}, ("e",)),          # large close floats x tiny floats
+        ({"d": 3, "a": 2}, ("d:float32",)),  # tiny distinct values in a single-precision array
+        ({"c": 3}, ("c:float32",)),          # ordinary values in a single-precision array
     ]
     if tier == "thorough":
         g += [({"b": 2, "a": 3}, ()), ({"c": 3, "a": 1}, ()), ({"b": 1, "a": 1, "c": 1}, ()),
@@ -75,6 +77,8 @@ def configs(tier):
                         ks in (("rep", 2 ** (rep_max - 1) - 1), ("sum", 3), ("sum", 5)) or tier == "thorough"):
                     # second simulate() after the grid / the limit was changed on the same runner
                     modes += ["twice_setitem", "twice_add", "twice_rep_max", "twice_two_runners"]
+                if not lengths and rep_max in (2, 3):
+                    modes += ["single:0"]      # the only combination of a set without unpacked parameters
                 if lengths and rep_max in (2, 3):
                     modes += ["single:%d" % i for i in range(nvar)]
                     if ks[0] in ("default", "sum"):
